@@ -137,14 +137,14 @@ package parser
 //@ spec posOK(s, p) = 0 <= p.Index && p.Index <= len(s) && p.Line == nlCount(s, p.Index) && p.Col == p.Index - lineStart(s, p.Index)
 //@ spec located(s, e) = posOK(s, e.Range.From) && posOK(s, e.Range.To) && e.Range.From.Index <= e.Range.To.Index && e.Range.From.Index + len(e.Value) <= len(s) && sub(s, e.Range.From.Index, e.Range.From.Index + len(e.Value)) == e.Value
 
-//@ func NewExpression [C06]
+//@ func NewExpression [C06, C07]
 //@   inline
-//@ func NewRange [C06]
+//@ func NewRange [C06, C07]
 //@   inline
 
 // parseGo: e is one of the goexpression extractors; what it returns is assumed to lie inside the text it was
 // given (proved for the clamping part of goexpression.extract, assumed for go/parser's positions)
-//@ func parseGo [C06]
+//@ func parseGo [C06, C07]
 //@   requires inputOK(pi)
 //@   modifies pi.charIndex, failedDuring
 //@   assume after e#1: implies(result2 == nil, 0 <= result0 && result0 <= result1 && result1 <= len(arg0))
@@ -152,7 +152,7 @@ package parser
 //@   ensures implies(err == nil, located(pi.s, r) && r.Range.To.Index == pi.charIndex && r.Range.From.Index >= old(pi.charIndex) && r.Range.To.Index - r.Range.From.Index == len(r.Value))
 //@   ensures implies(err != nil, pi.charIndex == old(pi.charIndex))
 
-//@ func parseGoSliceArgs [C06]
+//@ func parseGoSliceArgs [C06, C07]
 //@   requires inputOK(pi)
 //@   modifies pi.charIndex, failedDuring
 //@   assume after goexpression.SliceArgs#1: implies(result1 == nil, isPrefix(result0, arg0))
@@ -160,7 +160,7 @@ package parser
 //@   ensures implies(err == nil, located(pi.s, r) && r.Range.From.Index == old(pi.charIndex) && r.Range.To.Index == pi.charIndex && r.Range.To.Index - r.Range.From.Index == len(r.Value))
 //@   ensures implies(err != nil, pi.charIndex == old(pi.charIndex))
 
-//@ func parseGoFuncDecl [C06]
+//@ func parseGoFuncDecl [C06, C07]
 //@   requires inputOK(pi) && isPrefix(cat(prefix, " "), sub(pi.s, pi.charIndex, len(pi.s)))
 //@   modifies pi.charIndex, failedDuring
 //@   assume after goexpression.Func#1: implies(result2 == nil, isPrefix(result1, sub(arg0, 5, len(arg0))))
